@@ -21,6 +21,7 @@ type staticResult struct {
 	Stderr  string
 	Discard string
 	Detail  string
+	Unparsable string // an emitted file does not even parse
 }
 
 func runStatic(c *Ctx, cs *spec.Case, perFile bool) *staticResult {
@@ -54,6 +55,10 @@ func runStatic(c *Ctx, cs *spec.Case, perFile bool) *staticResult {
 		}
 	}
 	if err := b.analyze(); err != nil {
+		if strings.Contains(err.Error(), "_band.go") {
+			sr.Unparsable = err.Error()
+			return sr
+		}
 		sr.Discard, sr.Detail = "analyze-error", err.Error()
 		return sr
 	}
@@ -155,6 +160,15 @@ func checkC04(c *Ctx, k KCase) *Verdict {
 		return v
 	}
 	b := sr.B
+	if sr.Unparsable != "" {
+		v.Kind, v.Site = "syntax error in emitted file", firstLine(sr.Unparsable)
+		v.Fail = "generator exited 0 but an emitted file does not parse: " + sr.Unparsable
+		for n := range b.Inj {
+			v.Fail += "\n" + readBand(b, n)
+			break
+		}
+		return v
+	}
 	ninj := len(b.Inj)
 	v.Features["perfile-invocation"] = k.Salt == 1
 	v.Features["injectors>=2"] = ninj >= 2
@@ -203,3 +217,14 @@ func checkC04(c *Ctx, k KCase) *Verdict {
 func TestC04(t *testing.T)        { runProperty(t, "C04", genC04, checkC04) }
 func TestReplayC04(t *testing.T)  { runReplay(t, "C04", checkC04) }
 func TestWitnessC04(t *testing.T) { runWitnesses(t, "C04", checkC04, nil) }
+
+func firstLine(s string) string {
+	if i := strings.IndexByte(s, '\n'); i >= 0 {
+		s = s[:i]
+	}
+	// drop the scratch path prefix
+	if i := strings.LastIndex(s, "/"); i >= 0 {
+		s = s[i+1:]
+	}
+	return s
+}
